@@ -755,6 +755,11 @@ class _Unjellier:
             self.references[refid] = o
         else:
             assert 0, "Multiple references with same ID!"
+        if isinstance(o, NotKnown):
+            # A tuple, set, frozenset or method that is still waiting for a
+            # circular reference: later dereferences must see the real
+            # object once it exists.
+            o.addDependant(self.references, refid)
         return o
 
     def _unjelly_tuple(self, lst):
